@@ -336,10 +336,10 @@ def build_traces(path, tier, seed):
             v1 = [np.array(c.values_by_index(j), dtype=float) for j in range(k)]
             c.same_start(start=0, end=0.074)
             v2 = [np.array(c.values_by_index(j), dtype=float) for j in range(k)]
+        # (the slave is an exact copy of the master seen 2 samples later: after lag matching the overlapping samples coincide)
         tid += 1
-        recs.append({"tid": tid, "kind": "cluster", "k": k, "n": n, "master": 1, "steps": steps, "s": 0, "e": 8,
-                     "v0": [enc_seq(s_) for s_ in sigs], "v1": [enc_seq(s_) for s_ in v1], "v2": [enc_seq(s_) for s_ in v2], "arr1": [True, True], "arr2": [True, True]})
-        meta[tid] = {"kind": "cluster", "k": k, "n": n, "master": 0, "steps": steps, "true_lags": [0, 2], "finding": "tiny-units", "scale": 1e-200}
+        recs.append({"tid": tid, "kind": "rel", "clause": "LagRemoved", "tol": enc(0.0), "scale": enc(1.0), "x": enc_seq(v1[0][: n - 2]), "y": enc_seq(v1[1][: n - 2])})
+        meta[tid] = {"kind": "rel", "law": "overlapping samples coincide after time_match", "k": k, "n": n, "true_lags": [0, 2], "finding": "tiny-units", "scale": 1e-200}
     write_ndjson(path, recs)
     return meta
 
